@@ -473,3 +473,101 @@ def nontrivial(case, out):
 
 def matches_known(k, v):
     return False
+
+
+# ---------------------------------------------------------------- other areas' decoders (engine: extra_cases)
+def _mss_payloads(rng):
+    from . import c03
+    names = [b"/a", b"/proto/1.0.0", b"/ipfs/kad/1.0.0", b"/" + b"n" * 126, b"/" + b"m" * 127, b"/" + b"q" * 300]
+    sup = [rng.choice(names) for _ in range(rng.randrange(1, 4))]
+    main = rng.choice(names)
+    msgs = [c03.enc_msg(("header",)), c03.enc_msg(("proto", main)), c03.enc_msg(("na",)), c03.enc_msg(("ls",)),
+            c03.enc_msg(("protos", sup))]
+    return c03, names, sup, main, msgs
+
+
+def extra_cases(rng, tier):
+    """Malformed streams for the decoders modelled under other properties: multistream messages and the
+    message-based negotiation payloads (C03), substream length prefixes (C04), bitswap prefixes (C20)."""
+    n = {"quick": 40, "thorough": 1500, "search": 100}[tier]
+    c03, names, sup, main, msgs = _mss_payloads(rng)
+    hx3, hl3 = c03.hx, c03.hl
+    cases = []
+    # every truncation of every message kind, and of two-message negotiation payloads, for both roles
+    for m in msgs:
+        cases.append([f"dec {hx3(m[:i])}" for i in range(len(m) + 1)])
+    pay = c03.frame(msgs[0]) + c03.frame(c03.enc_msg(("proto", sup[0])))
+    for hr in (0, 1):
+        cases.append([f"wlisten hr={hr} sup={hl3(sup)} payload={hx3(pay[:i])}" for i in range(len(pay) + 1)])
+    for resp in (pay, c03.frame(msgs[0]) + c03.frame(msgs[2]), c03.frame(c03.enc_msg(("proto", sup[0])))):
+        ops = []
+        for i in range(len(resp) + 1):
+            ops += [f"wpropose main={hx3(sup[0])} fb={hl3(names[:2])}", f"wresp {hx3(resp[:i])}"]
+        cases.append(ops)
+    for _ in range(n):
+        ops = []
+        for _ in range(12):
+            c03_, names, sup, main, msgs = _mss_payloads(rng)
+            parts = [c03.frame(rng.choice(msgs)) for _ in range(rng.randrange(0, 4))]
+            b = b"".join(parts)
+            for _ in range(rng.choice([0, 1, 1, 2])):
+                b = mutate(rng, b)
+            r = rng.random()
+            if r < 0.35:
+                m = rng.choice(msgs)
+                for _ in range(rng.choice([0, 1, 2])):
+                    m = mutate(rng, m)
+                ops.append(f"dec {hx3(m[:16383])}")
+            elif r < 0.7:
+                ops.append(f"wlisten hr={rng.choice([0, 1])} sup={hl3(sup)} payload={hx3(b)}")
+            else:
+                ops += [f"wpropose main={hx3(main)} fb={hl3(sup)}", f"wresp {hx3(b)}"]
+        cases.append(ops)
+    yield "C03", cases
+    # substream length prefixes (the sender is a scripted raw writer)
+    c4 = []
+    prefixes = [b"\x05hello", b"\x00", b"\x0b" + b"x" * 11, b"\x80\x01" + b"y" * 128, b"\xff\xff\x03", b"\xff\xff\xff\xff\x0f",
+                b"\x80" * 9 + b"\x01", b"\x80" * 10 + b"\x01", b"\xff" * 10, b"\x80\x00", b"\xf1\xa2\x04" + b"z" * 70001]
+    for _ in range(max(6, n // 4)):
+        codec = rng.choice(["varint 10", "varint 10", "varint 70000", "varint 0", "identity 5", "identity 1"])
+        ops = [f"codec {codec}"]
+        for _ in range(rng.randrange(1, 4)):
+            b = rng.choice(prefixes)
+            if rng.random() < 0.5:
+                b = mutate(rng, b[:64]) + b[64:]
+            ops += [f"raw {b.hex()}", "recv", "recv"]
+        c4.append(ops)
+    yield "C04", c4
+    # bitswap prefixes: random noise and mutated valid prefixes
+    c20 = []
+    for _ in range(max(4, n // 8)):
+        ops = []
+        for _ in range(20):
+            b = uv(rng.choice([0, 1, 1, 2])) + uv(rng.choice([0x55, 0x70, 2 ** 40])) + uv(rng.choice([0x12, 0x13, 0xb220, 0])) + \
+                uv(rng.choice([32, 64, 255, 256, 2 ** 32]))
+            for _ in range(rng.choice([0, 1, 2])):
+                b = mutate(rng, b)
+            ops.append(f"prefix_dec {hx(b[:40])}")
+        c20.append(ops)
+    yield "C20", c20
+
+
+def oracle_extra(xpid, case, out):
+    bad = []
+    for i, op in enumerate(case):
+        if i >= len(out):
+            break
+        o = out[i]
+        if o == "skipped":
+            break
+        if o.startswith("panic"):
+            bad.append({"kind": "panic", "msg": f"{xpid} decoder panicked on {op[:80]}: {o[:120]}", "step": i, "op": op[:300],
+                        "out": o[:200]})
+            break
+    return bad
+
+
+def stats_extra(xpid, case, out, acc):
+    for op, o in zip(case, out):
+        res = "err" if ("err" in o[:12] or o.startswith(("none", "dropped"))) else "ok"
+        bump(acc, f"extra:{xpid}:{op.split()[0]}:{res}")
